@@ -101,10 +101,9 @@ def ctor_certificate(o):
 
 
 def invariant_diffs(o, fields=None, what="", lndet_oracle=None):
-    out = _invariant_diffs(o, fields, what, lndet_oracle)
-    if out and fields is None and ctor_certificate(o):
+    if fields is None and ctor_certificate(o):
         return []
-    return out
+    return _invariant_diffs(o, fields, what, lndet_oracle)
 
 
 def _invariant_diffs(o, fields=None, what="", lndet_oracle=None):
